@@ -28,12 +28,15 @@ HEADER = ("From Hy Require Import lib.Harness model.C18_Inbounds corr.C18_Corr.\
           "Local Open Scope N_scope.\n")
 RULE = ("seeded generator. SOCKS5: byte scripts built from greeting / USER-PASS / request messages with valid and invalid versions, "
         "method lists with and without 0x02, right and wrong credentials, zero and lying length bytes, truncation at every message, "
-        "all three address types, CONNECT/BIND/UDP/unknown commands, pipelined tails, random byte noise; every script under several "
+        "all three address types, CONNECT/BIND/UDP/unknown commands, pipelined tails, random byte noise; clients that ignore a refusal "
+        "(05 FF, bad version, rejected / malformed USER/PASS) and pipeline a well-formed request at every offset the server can have "
+        "consumed; every script under several "
         "chunkings (whole, byte-wise, random, with zero-length reads) and ALL chunkings of a short authenticated prefix. "
         "HTTP: requests serialised from structured cases (CONNECT / GET, keep-alive sequences) with ~25 Proxy-Authorization variants "
         "(case, spacing, bad base64, padding, no colon, several colons, U+0130 in the scheme name), pipelined tails and split points "
         "inside / at / behind the header block. cachedConn / connWithOneByte: random buffers, chunkings and read sizes incl. zero. "
-        "Mux: random histories of ListenSOCKS/ListenHTTP/sub-listener Close/Accept/incoming/first byte/read error on a muxListener in a "
+        "Mux: random histories of ListenSOCKS/ListenHTTP/sub-listener Close/Accept/incoming/first byte/read error (each behind 0..n "
+        "zero-length reads) on a muxListener in a "
         "synctest bubble, observed at every quiescent point and replayed against the LTS. Non-trivial = an upstream was opened, or "
         "credentials were rejected, or a connection was handed over / closed by the mux. Distinct = distinct JSON case.")
 ASSUMPTIONS = [
@@ -208,6 +211,49 @@ def gen_socks(rng, tier):
             add(True, gr + s_request(rng, rng.choice([1, 3])) + b"xyz", -1, 2)
             add(True, bytes(rng.choice([5, 5, 1, 0, 2, 3, rng.randrange(256)]) for _ in range(rng.randint(0, 30))), -1, 2)
             add(False, bytes(rng.choice([5, 5, 1, 0, 2, 3, rng.randrange(256)]) for _ in range(rng.randint(0, 30))), -1, 2)
+    # The client that does not take no for an answer: wherever the server refuses it (no acceptable method -> 05 FF,
+    # bad version, zero methods, USER/PASS rejected or malformed -> 01 01 / nothing) the client ignores the reply, goes on
+    # as if it had been accepted and pipelines a WELL-FORMED request.  The request is spliced in at the offsets the
+    # server can have consumed when it refuses (end of the greeting, behind the 2-byte headers, every offset of a
+    # rejected USER/PASS message), so that a server which wrongly carries on finds a valid request exactly there.
+    def good_req():
+        cmd, atyp = rng.choice([1, 1, 3]), rng.choice([1, 3, 4])
+        while True:
+            r = s_request(rng, cmd=cmd, atyp=atyp, ver=5)
+            if not (atyp == 3 and r[4] == 0):
+                return r
+
+    def offers(gr, want):
+        return gr[0] == 5 and gr[1] > 0 and len(gr) == 2 + gr[1] and want in gr[2:]
+
+    def insist(auth, pre, cuts):
+        for cut in sorted(set(cuts)):
+            stream = pre[:cut] + good_req() + bytes(rng.randrange(256) for _ in range(rng.choice([0, 3, 20])))
+            styles = [[stream], [stream[:cut], stream[cut:]], [stream[:cut], b"", stream[cut:cut + 1], stream[cut + 1:]]]
+            styles += chunkings(rng, stream, 1)
+            if tier == "quick":
+                styles = [styles[0], rng.choice(styles[1:])]
+            for ch in styles:
+                cases.append({"k": "socks", "auth": auth, "user": hx(USER), "pass": hx(PASS), "dudp": rng.random() < 0.2,
+                              "dial": rng.random() < 0.9, "udp": rng.random() < 0.9, "chunks": [hx(c) for c in ch], "tail": -1})
+
+    for _ in range(scale):
+        for auth in (True, False):
+            want = 2 if auth else 0
+            for g in ("none", "up", "other", "many", "rand", "badver", "zero", "lying"):
+                for _try in range(20):
+                    gr = s_greet(rng, g)
+                    if not offers(gr, want):
+                        break
+                else:
+                    continue
+                insist(auth, gr, [2, len(gr)] + (list(range(2, len(gr))) if len(gr) <= 8 and tier != "quick" else []))
+        for g in ("up", "both", "both2"):
+            gr = s_greet(rng, g)
+            for u in ("wrongpw", "wronguser", "prefix", "badver", "ulen0", "plen0", "rand"):
+                pre = gr + s_userpass(rng, u)
+                allc = list(range(len(gr), len(pre) + 1))
+                insist(True, pre, allc if tier != "quick" else [len(gr) + 2, len(pre)] + rng.sample(allc, 2))
     # ALL chunkings of the authenticated prefix (greeting + USER/PASS), request in one piece
     pre = bytes([5, 1, 2]) + bytes([1, 1]) + b"u" + bytes([1]) + b"p"
     req = bytes([5, 1, 0, 1, 10, 0, 0, 1, 0x1f, 0x90])
@@ -408,9 +454,10 @@ def gen_mux(rng, tier):
                 nconn += 1
             elif r < 0.72:
                 b = rng.choice([5, 5, 5, 0x47, 0x43, 0x16, 4, 0, 255])
-                ops.append({"op": "fb", "a": rng.randrange(8), "b": b, "w": True})
+                # z: Read calls returning (0, nil) before the one that yields the first byte
+                ops.append({"op": "fb", "a": rng.randrange(8), "b": b, "z": rng.choice([0, 0, 1, 1, 2, 7]), "w": True})
             elif r < 0.78:
-                ops.append({"op": "re", "a": rng.randrange(8), "w": True})
+                ops.append({"op": "re", "a": rng.randrange(8), "z": rng.choice([0, 0, 1, 3]), "w": True})
             elif closed:
                 ops.append({"op": "ac", "a": rng.randrange(len(closed)), "w": True})
         ops.append({"op": "acall", "w": True})
@@ -432,17 +479,30 @@ def gen_mux(rng, tier):
             [other, "in", ("fb", b), k, "in", ("fb", b)],
             [k, "in", ("re", 0), "in", ("fb", b), ("ac", 0), ("sc", 0), "in"],
         ]
-        for t in tmpl:
-            ops = []
-            for x in t:
-                if isinstance(x, str):
-                    ops.append({"op": x, "w": W})
-                elif x[0] == "fb":
-                    ops.append({"op": "fb", "a": 0, "b": x[1], "w": W})
-                else:
-                    ops.append({"op": x[0], "a": x[1], "w": W})
-            ops.append({"op": "acall", "w": W})
-            cases.append({"k": "mux", "ops": ops, "rest": [hx(b"rest"), "", hx(b"!")], "sizes": [0, 1, 0, 3]})
+        for ti, t in enumerate(tmpl):
+            # every template with the first byte arriving at once and behind zero-length reads
+            for z in ((0, 1 + ti % 3) if tier == "quick" else (0, 1, 2, 5)):
+                ops = []
+                for x in t:
+                    if isinstance(x, str):
+                        ops.append({"op": x, "w": W})
+                    elif x[0] == "fb":
+                        ops.append({"op": "fb", "a": 0, "b": x[1], "z": z, "w": W})
+                    elif x[0] == "re":
+                        ops.append({"op": "re", "a": x[1], "z": z, "w": W})
+                    else:
+                        ops.append({"op": x[0], "a": x[1], "w": W})
+                ops.append({"op": "acall", "w": W})
+                cases.append({"k": "mux", "ops": ops, "rest": [hx(b"rest"), "", hx(b"!")], "sizes": [0, 1, 0, 3]})
+    # both protocols registered and accepting, one connection per first byte, the byte behind z zero-length
+    # reads, the rest of the stream itself starting with zero-length reads: handler choice and the bytes
+    # the handler reads are checked against the client's stream
+    for b in (5, 0x47, 0x43, 0, 4, 255):
+        for z in ((0, 1, 4) if tier == "quick" else (0, 1, 2, 3, 4, 9)):
+            ops = [{"op": "ls", "w": W}, {"op": "lh", "w": W}, {"op": "ac", "a": 0, "w": W}, {"op": "ac", "a": 1, "w": W},
+                   {"op": "in", "w": W}, {"op": "fb", "a": 0, "b": b, "z": z, "w": W}, {"op": "acall", "w": W}]
+            rest = [b""] * rng.randint(0, 2) + [bytes(rng.randrange(256) for _ in range(rng.choice([1, 3, 12])))] + [b"", b"\x05\x00"]
+            cases.append({"k": "mux", "ops": ops, "rest": [hx(c) for c in rest], "sizes": [rng.choice([0, 1, 2, 64]) for _ in range(4)]})
     # the two shutdown-window schedules found in round 1 (fixed by 2cea45c / c413452), deterministic
     cases.append({"k": "muxd1"})
     cases.append({"k": "muxd2"})
@@ -550,7 +610,9 @@ def to_coq(c, o):
         return "CRead %s %s [%s] %s" % (cb(c["buf"]), script(c["chunks"]), ";".join(str(s) for s in c["sizes"]), obs)
     if k == "mux":
         st = []
-        for code, a, b in o["rops"]:
+        for rop in o["rops"]:
+            code, a, b = rop[:3]
+            z = rop[3] if len(rop) > 3 else 0
             if code == 0:
                 st.append("StListen true %d" % a)
             elif code == 1:
@@ -564,9 +626,9 @@ def to_coq(c, o):
             elif code == 5:
                 st.append("StRefused")
             elif code == 6:
-                st.append("StFirstByte %d%%nat x%02x" % (a, b))
+                st.append("StFirstByte %d%%nat %d%%nat x%02x" % (a, z, b))
             elif code == 7:
-                st.append("StReadErr %d%%nat" % a)
+                st.append("StReadErr %d%%nat %d%%nat" % (a, z))
             elif code == 9:
                 s = o["snaps"][a]
                 hs = "[" + ";".join("(%d,%d)%%nat" % (x[0], x[1]) for x in (s["handoffs"] or [])) + "]"
